@@ -7,6 +7,18 @@ BASE_NOTE = ("Trusted: Lean 4.33.0 kernel (axioms propext, Classical.choice, Quo
              "tied to /repo's working tree by running both on the same inputs on every run.")
 
 CHECKS = {
+    "C07": {
+        "category": "proof",
+        "text": "Lean theorems about Model/Range.lean (get_contig_range two-pass loop, get_contig_length with the usize "
+                "subtraction in checked and wrapping readings, reconstruct_contig, reverse_complement_segment): for ALL segment "
+                "lists and ALL (start,end) the range query equals the slice [start, min(end,len)) of the reconstructed contig and "
+                "the length query equals its length, under the stated well-formedness (raw_length = decoded length, later "
+                "segments >= k). The model is executed against the real Decompressor on every contig of generated archives "
+                "(exhaustive (start,end) for short contigs, every junction +-(k+1) for long ones), and the property is evaluated "
+                "directly on the real code against the slice of get_contig.",
+        "design_ref": "DESIGN.md §5 C07",
+        "technique": "Lean 4 proof over a list model + differential correspondence on real archives",
+    },
     "C20": {
         "category": "proof",
         "text": "Lean theorems about Model/Kmer.lean (UInt64 shifts/masks exactly as kmer.rs) for all k in 1..32 and all "
